@@ -5,6 +5,7 @@ import (
 	"crypto/rand"
 	"crypto/tls"
 	"errors"
+	"slices"
 
 	"golang.org/x/crypto/cryptobyte"
 )
@@ -135,6 +136,11 @@ func parseConfig(s *cryptobyte.String) (ConfigSpec, error) {
 	if !ss.ReadUint16LengthPrefixed(&extensions) || !ss.Empty() {
 		return out, ErrDecodeError
 	}
+	// The key and the name are views of the input. They end where their data
+	// ends: an append to one of them must not write into what follows it in
+	// the input (the rest of this config, the next config of the list).
+	out.PublicKey = slices.Clip(out.PublicKey)
+	out.PublicName = slices.Clip(out.PublicName)
 	return out, nil
 }
 
